@@ -683,6 +683,25 @@ class SStr(object):
             raise UnicodeEncodeError(str(enc), '', 0, 1, 'character not encodable (model)')
         return SBytes([Blob((str(enc).lower(), self.t), E.new_int('enc.%s.len' % enc, 0, MAX_LEN))])
 
+    def _strip(self, chars, what):
+        """str.strip family on a symbolic string (assumed Python semantics: either nothing is removed and the result is the
+        string itself, or the result is a strictly shorter piece of it): one path for each."""
+        E = engine()
+        if E.decide(E.new_bool('str.%s.removes-something' % what).t):
+            r = E.new_str('%s-ped' % what)
+            E.assume(mk_bool(z3.And(z3.Length(r.t) < z3.Length(self.t), z3.Contains(self.t, r.t))))
+            return r
+        return self
+
+    def strip(self, chars=None):
+        return self._strip(chars, 'strip')
+
+    def lstrip(self, chars=None):
+        return self._strip(chars, 'lstrip')
+
+    def rstrip(self, chars=None):
+        return self._strip(chars, 'rstrip')
+
     def __repr__(self):
         return 'SStr(%s)' % (self.t,)
 
